@@ -1,26 +1,33 @@
 #!/usr/bin/env python3
-"""Apply a seeded change to /repo, run the given checks (quick), undo it.  usage: run_seeded.py <seed> <pid> [<pid>...]
-<seed> is a directory name under /verif/seeded or 'revert:<commit>'."""
-import json, os, subprocess, sys
+"""Run checks against a seeded change WITHOUT touching /repo: a scratch worktree of /repo HEAD gets the patch and
+the checks run with VERIF_REPO pointing at it.   usage: run_seeded.py <seed> <pid> [<pid>...]
+<seed> is a directory name under /verif/seeded, a path to a .diff, or 'revert:<commit>'.  TIER=quick|thorough."""
+import os
+import shutil
+import subprocess
+import sys
+
 VERIF = os.path.dirname(os.path.dirname(os.path.abspath(__file__)))
 seed, pids = sys.argv[1], sys.argv[2:]
-assert subprocess.run("git -C /repo status --porcelain", shell=True, capture_output=True, text=True).stdout.strip() == "", "repo dirty"
-if seed.startswith("revert:"):
-    r = subprocess.run("git -C /repo show %s | git -C /repo apply -R" % seed.split(":")[1], shell=True)
-else:
-    r = subprocess.run("git -C /repo apply %s/seeded/%s/patch.diff" % (VERIF, seed), shell=True)
-assert r.returncode == 0
-res = {}
+wt = "/tmp/seedrun_%d" % os.getpid()
+subprocess.run("git -C /repo worktree add -q --detach %s HEAD" % wt, shell=True, check=True)
 try:
+    if seed.startswith("revert:"):
+        r = subprocess.run("git -C %s show %s | git -C %s apply -R" % (wt, seed.split(":")[1], wt), shell=True)
+    elif os.path.isfile(seed):
+        r = subprocess.run("git -C %s apply %s" % (wt, os.path.abspath(seed)), shell=True)
+    else:
+        r = subprocess.run("git -C %s apply %s/seeded/%s/patch.diff" % (wt, VERIF, seed), shell=True)
+    assert r.returncode == 0, "patch does not apply"
     for pid in pids:
         tier = os.environ.get("TIER", "quick")
+        env = dict(os.environ, VERIF_REPO=wt, VERIF_NO_EVIDENCE="1")
         p = subprocess.run("/venv/bin/python harness/vp.py check %s --tier %s --no-build" % (pid, tier), shell=True, cwd=VERIF,
-                           capture_output=True, text=True)
+                           capture_output=True, text=True, env=env)
         lines = [l for l in p.stdout.splitlines() if l.startswith("VIOLATION") or l.startswith(pid)]
-        res[pid] = dict(rc=p.returncode, lines=lines[:4])
-        print(seed, pid, "rc=%d" % p.returncode, *lines[:3], sep="\n   ")
+        print(seed, pid, "rc=%d" % p.returncode, *lines[:4], sep="\n   ")
         if p.returncode not in (0, 1) or (p.returncode == 1 and not lines):
             print(p.stdout[-1500:], p.stderr[-1500:])
 finally:
-    subprocess.run("git -C /repo checkout -- . && git -C /repo clean -fdq playback", shell=True)
-    subprocess.run("git checkout -q -- evidence 2>/dev/null", shell=True, cwd=VERIF)
+    subprocess.run("git -C /repo worktree remove --force %s" % wt, shell=True)
+    shutil.rmtree(wt, ignore_errors=True)
